@@ -810,17 +810,34 @@ def r38_or_pattern_guard(text):
         ob = next(k for k, t in enumerate(toks) if t.text == '{' and t.end == m.end())
         cb = match_close(toks, ob)
         body = text[toks[ob].start:toks[cb].end]
-        if '//' in body:
-            raise Unsupported('R38: comment inside the duplicated arm body')
+        # the second copy goes on one line, rebuilt from the tokens (comments are not tokens)
+        parts = [toks[ob].text]
+        for q in range(ob + 1, cb + 1):
+            gap = text[toks[q - 1].end:toks[q].start]
+            parts.append(' ' if ('//' in gap or '/*' in gap) else re.sub(r'\s+', ' ', gap))
+            parts.append(toks[q].text)
+        body_nc = ''.join(parts)
         ind, p1, p2, g = m.groups()
         n += 1
         head = text[m.start():m.end()]
         # keep the line structure of the original head for the first arm: replace `| P2` by nothing
         head1 = re.sub(r'\| ' + re.escape(p2), '', head, count=1)
-        flat = ' '.join(body.split())
+        flat = ' '.join(body_nc.split())
         after = text[toks[cb].end:]
         after = after[1:] if after.startswith(',') else after
         text = text[:m.start()] + head1 + text[m.end():toks[cb].end] + f' {p2} if {g.strip()} => {flat}' + after
+
+
+def r39_find_by_name(text):
+    """`X.iter().find(|(N, _)| N == K)` => `find_by_name(X, K)`: an external_body helper of the template whose trusted contract is that of
+    Iterator::find for this predicate (the first pair whose first component equals K, if any)."""
+    n = 0
+    while True:
+        m = re.search(r'\b(\w+)\.iter\(\)\.find\(\|\((\w+), _\)\| \2 == (\w+)\)', text)
+        if not m:
+            return text, n
+        n += 1
+        text = text[:m.start()] + f'find_by_name({m.group(1)}, {m.group(3)})' + text[m.end():]
 
 
 def r10_windows2(text):
@@ -884,7 +901,7 @@ def r7_param_patterns(text):
     return _apply_edits(text, edits), n
 
 
-RULES = [('R0', r0_visibility_and_stats), ('R1', r1_ref_patterns), ('R7', r7_param_patterns), ('R28', r28_mut_self), ('R8', r8_assert_eq), ('R9', r9_subslice_copy), ('R10', r10_windows2), ('R38', r38_or_pattern_guard), ('R36', r36_chain_collect), ('R37', r37_opt_slice), ('R11', r11_collect), ('R12', r12_subslice_to_subslice), ('R13', r13_copied_take), ('R15', r15_iter_all_eq), ('R16', r16_map_collect_tail), ('R17', r17_match_arm_ref_guard), ('R18', r18_bool_bitand), ('R20', r20_iter_skip), ('R21', r21_let_map_collect), ('R21b', r21b_let_chain_map_collect), ('R29', r29_map_index), ('R22b', r22b_extend_array_iter), ('R33', r33_extend_map_closure), ('R34', r34_extend_array_call), ('R22', r22_vec_extend), ('R23', r23_range_copy), ('R24', r24_opaque_iter), ('R25', r25_iter_sum), ('R26', r26_slice_iters), ('R27', r27_add_assign_ref), ('R30', r30_iter_mut_enumerate_take), ('R0b', r0b_dead_const_block), ('R35', r35_closure_shapes), ('R31', r31_iter_mut_enum_fields), ('R32', r32_iter_mut_plain), ('R16b', r16b_into_iter_map_block_collect),
+RULES = [('R0', r0_visibility_and_stats), ('R1', r1_ref_patterns), ('R7', r7_param_patterns), ('R28', r28_mut_self), ('R8', r8_assert_eq), ('R9', r9_subslice_copy), ('R10', r10_windows2), ('R38', r38_or_pattern_guard), ('R36', r36_chain_collect), ('R39', r39_find_by_name), ('R37', r37_opt_slice), ('R11', r11_collect), ('R12', r12_subslice_to_subslice), ('R13', r13_copied_take), ('R15', r15_iter_all_eq), ('R16', r16_map_collect_tail), ('R17', r17_match_arm_ref_guard), ('R18', r18_bool_bitand), ('R20', r20_iter_skip), ('R21', r21_let_map_collect), ('R21b', r21b_let_chain_map_collect), ('R29', r29_map_index), ('R22b', r22b_extend_array_iter), ('R33', r33_extend_map_closure), ('R34', r34_extend_array_call), ('R22', r22_vec_extend), ('R23', r23_range_copy), ('R24', r24_opaque_iter), ('R25', r25_iter_sum), ('R26', r26_slice_iters), ('R27', r27_add_assign_ref), ('R30', r30_iter_mut_enumerate_take), ('R0b', r0b_dead_const_block), ('R35', r35_closure_shapes), ('R31', r31_iter_mut_enum_fields), ('R32', r32_iter_mut_plain), ('R16b', r16b_into_iter_map_block_collect),
          ('R2', r2_array_literal_loops), ('R3', r3_zip_enumerate)]
 
 
